@@ -404,6 +404,17 @@ def rule_tempoform(ctx):
             hb = [z for z in (b[0].a[1], b[0].a[2]) if not (z.op == "bin" and z.a[0] == "-")][0]
             good = ha.op == "sub" and hb.op == "sub" and ha.a[0] is hb.a[0] and tm.is_const(ha.a[1], 0) and tm.is_const(hb.a[1], 1)
             hits = ha.a[0]
+    indexed = None
+    if not good and len(terms) == 2 and len(a) == 1 and len(b) == 1:
+        # the two hit values written out per index: the same expression in reference_tempi[0] and reference_tempi[1]
+        X = [z for z in tm.walk(ha) if z.op == "sub" and z.a[0].op == "param" and role_of(z.a[0].a[0]) == "R" and tm.is_const(z.a[1], 0)]
+        if X:
+            x0 = X[0]
+            x1 = tm.sub(x0.a[0], tm.const(1))
+            if tm.rebuild(ha, lambda z: x1 if z is x0 else None) is hb and not any(z is x1 for z in tm.walk(ha)):
+                good = True
+                el = tm.mk("iter", x0.a[0], "TEMPO")
+                indexed = tm.rebuild(ha, lambda z: el if z is x0 else None)
     yield ob(R, f, "tempo.detection:p-score", good, "P-score = reference_weight * hits[0] + (1 - reference_weight) * hits[1]")
     hit_ok = False
 
@@ -425,6 +436,9 @@ def rule_tempoform(ctx):
         if hits.op == "comp" and hits.a[0] == "list" and len(hits.a[2]) == 1 and hits.a[2][0].op == "param" and role_of(hits.a[2][0].a[0]) == "R" and not hits.a[3]:
             alts = [a for a in resolve_ite_free(hits.a[1]) if not tm.is_const(a, False)]
             hit_ok = hit_ok or (len(alts) == 1 and hit_cmp(alts[0]))
+    if indexed is not None:
+        alts = [a_ for a_ in resolve_ite_free(indexed) if not tm.is_const(a_, False)]
+        hit_ok = len(alts) == 1 and hit_cmp(alts[0])
     yield ob(R, f, "tempo.detection:hit", hit_ok, "hits[i] = min over both estimates of |ref_i - est| / ref_i <= tol, for the i-th reference tempo")
 
 
